@@ -47,9 +47,10 @@ class State:
     def tol(self, gem, P, A, ref, cname):
         t = 1e-9 * max(1.0, abs(ref))
         if cname == "MMDGEMINI":
-            t += 2 * _gem.mmd_tolerance(gem, np.clip(P, gem.epsilon, 1 - gem.epsilon), np.asarray(A, dtype=float))
+            A_ = np.asarray(A, dtype=float)
+            t = 1e-9 * max(abs(ref), float(np.sqrt(np.max(np.abs(A_))))) + 2 * _gem.mmd_tolerance(gem, np.clip(P, gem.epsilon, 1 - gem.epsilon), A_)
         if cname == "WassersteinGEMINI":
-            t += 1e-9 * float(np.max(np.abs(A)))
+            t = 1e-9 * max(abs(ref), float(np.max(np.abs(A))))
         return t
 
     def grad_equal(self, gem, P, A, g1, g2, orig, what, mech):
@@ -70,11 +71,7 @@ class State:
         G1 = P * (g1 - (P * g1).sum(1, keepdims=True))
         G2 = P * (g2 - (P * g2).sum(1, keepdims=True))
         gs = max(float(np.max(np.abs(G1))), float(np.max(np.abs(G2))), 1e-300)
-        ferr = 100 * numdiff.EPS
-        if A is not None:
-            ferr = 1e-14 * float(np.max(np.abs(A))) + 100 * numdiff.EPS * max(1.0, float(np.max(np.abs(A))))
-            if type(gem).__name__ == "MMDGEMINI":
-                ferr += _gem.mmd_tolerance(gem, P, np.asarray(A, dtype=float), rel=1e-14)
+        ferr = _gem.score_abs_err(gem, P, A)
         order = np.argsort(-np.abs(G1 - G2).ravel())[:4]
         for flat in order:
             i, k = np.unravel_index(int(flat), P.shape)
@@ -85,7 +82,7 @@ class State:
                 Lt = L.copy()
                 Lt[i, k] += t
                 return _val(orig(gem, gen.softmax(Lt), A, False))
-            d = numdiff.derivative(f, L[i, k], f_abs_err=ferr)
+            d = numdiff.derivative(f, L[i, k], f_abs_err=ferr, strict=True)
             if d is None or numdiff.ill_conditioned(d[2], max(abs(d[0]), gs)):
                 ctx.count("grad_perm_kink_skipped")
                 continue
@@ -128,7 +125,9 @@ class State:
         # bounds
         ctx.count("bound:nonneg")
         # clipping one-hot rows at epsilon leaves rows summing to 1 + (K-2)*epsilon: allow a few K*epsilon
-        if value < -1e-12 - 4 * K * gem.epsilon - (tol - 1e-9 * max(1.0, abs(v0))):
+        unit = 1.0 if A is None else (float(np.sqrt(np.max(np.abs(A)))) if cname == "MMDGEMINI" else float(np.max(np.abs(A))))
+        sqrt_term = 2 * _gem.mmd_tolerance(gem, np.clip(P, gem.epsilon, 1 - gem.epsilon), np.asarray(A, dtype=float)) if cname == "MMDGEMINI" else 0.0
+        if value < -(1e-12 + 4 * K * gem.epsilon) * max(unit, 1e-300) - sqrt_term:
             ctx.violation("nonneg", "negative-score/" + mech, observed={"score": value, "P": P}, expected=">= 0",
                           detail={"A": A})
         if dist in ("tv", "hellinger"):
@@ -219,7 +218,7 @@ def run_case(case, ctx, st):
     if case["kind"] == "direct":
         st.mode = "direct"
         for idx in range(case["i0"], case["i1"]):
-            info, gem, P, L, A, X = _gem.direct_case(case["seed"], ID, idx, nmax=14, scales=SCALES)
+            info, gem, P, L, A, X = _gem.direct_case(case["seed"], ID, idx, nmax=14, scales=SCALES, big=True)
             st.rng = gen.rng_for(case["seed"], ID, "mon", idx)
             N, K = P.shape
             variant = idx % 8
